@@ -23,17 +23,21 @@ BUDGET = {'quick': 40, 'thorough': 600}
 CHUNK = {'quick': 150, 'thorough': 300}
 RULE = ('one case = one call of map/imap/starmap/starcall (pool method or module-level function) with 0-6 items, pool '
         'size 1-7, seeded positions of failing items, both result modes, under one seeded schedule of the worker threads '
+        '- or (call-site mode) 1-3 request threads on one TileManager each creating 2-4 uncached (meta) tiles at once '
+        'through TileCreator._create_threaded, with seeded failing fetches '
         '(every queue operation and every step inside an item is a pre-emption point); non-trivial = at least two items '
         'ran on worker threads and their completion order differs from the input order or an item failed; distinct = '
         'distinct hash of the scheduler event log')
 COMPONENTS = {
     'real': ['mapproxy.util.async_.ThreadPool / ThreadWorker / imap / starmap / starcall / _result_iter',
-             'threading.Thread (real threads, adopted at start())', 'mapproxy.config base_config thread-local plumbing'],
+             'threading.Thread (real threads, adopted at start())', 'mapproxy.config base_config thread-local plumbing',
+             'call-site mode: mapproxy.cache.tile.TileManager/TileCreator._create_threaded, FileCache and TileLocker on SimFS'],
     'stub': ['queue.Queue (SimQueue with identical semantics, blocking through the scheduler)',
-             'scheduler choice of which thread runs'],
+             'scheduler choice of which thread runs', 'call-site mode: upstream source (SimSource)'],
 }
 ASSUMPTIONS = [
     'pre-emption at queue operations and at explicit steps inside the work items (not between arbitrary bytecodes)',
+    'call-site mode: callers ask for tiles of pairwise different meta tiles, so a failing fetch belongs to exactly one caller',
     'raising mode with a pool of size < 2 returns the exc_info tuple in the slot of the failing item instead of raising; '
     'the statement allows "reported for that item", so this is counted as unspecified, not as a violation',
 ]
